@@ -122,7 +122,9 @@ def cond_env(case, env):
     params = case.get("params", ARGS)
     if any(p.startswith("*") for p in params):
         return env
-    return dict((k, v) for k, v in env.items() if k in params)
+    out = dict((k, v) for k, v in env.items() if k in params)
+    out.update(case.get("cond_defaults") or {})     # parameters of the condition's own: the call never supplies them
+    return out
 
 
 class _Plain:
@@ -197,7 +199,7 @@ def _scan_input(case):
     src = implexpr.full_source([case])
     lines = src.splitlines(keepends=True)
     params = ["self"] if case.get("kind") == "invariant" else case.get("params", ARGS)
-    needle = "lambda %s:" % ", ".join(params)
+    needle = "lambda %s:" % implexpr.lambda_header(case, params)
     idx = [i for i, ln in enumerate(lines) if needle in ln]
     out = None
     if len(idx) == 1:
